@@ -656,6 +656,117 @@ def inline_helper(toks, helper, log, where):
     return out
 
 
+def match_open(toks, k):
+    """index of the opening bracket matching the closing bracket at k"""
+    close_to_open = {")": "(", "]": "[", "}": "{"}
+    want = close_to_open[toks[k].text]
+    depth = 0
+    i = k
+    while i >= 0:
+        t = toks[i]
+        if t.kind == "punct" and t.text == toks[k].text:
+            depth += 1
+        elif t.kind == "punct" and t.text == want:
+            depth -= 1
+            if depth == 0:
+                return i
+        i -= 1
+    raise Unsupported("unbalanced bracket")
+
+
+def chain_start(toks, dot_idx):
+    """first token of the postfix expression that ends right before the `.` at dot_idx (idents, field accesses, calls, indexing,
+       `?`, paths with `::`, a leading `&`/`*` is NOT included)"""
+    i = _prev_code(toks, dot_idx - 1)
+    start = None
+    while i >= 0:
+        t = toks[i]
+        if t.kind == "punct" and t.text in (")", "]"):
+            i = match_open(toks, i)
+            start = i
+            p = _prev_code(toks, i - 1)
+            if p >= 0 and toks[p].kind == "ident" and toks[p].text not in ("if", "match", "while", "return", "in", "let", "else"):
+                i = p
+                continue       # the callee / indexed name is handled by the ident case
+            break
+        if t.kind == "punct" and t.text == "?":
+            i = _prev_code(toks, i - 1)
+            continue
+        if t.kind in ("ident", "num"):
+            start = i
+            p = _prev_code(toks, i - 1)
+            if p >= 0 and toks[p].kind == "punct" and toks[p].text in (".", "::"):
+                i = _prev_code(toks, p - 1)
+                continue
+            break
+        break
+    if start is None:
+        raise Unsupported("receiver expression not recognised")
+    return start
+
+
+def desugar_option_calls(toks, methods, log, where):
+    """R21: `RECV.map_or(D, |P| B)`, `RECV.filter(|P| B)`, `RECV.map(|P| B)`, `RECV.and_then(|P| B)`, `RECV.is_some_and(|P| B)` on
+       an Option -> the `match` the combinator stands for (std's documented definition); the closure's text is kept as the arm."""
+    out = list(toks)
+    changed = []
+    k = 0
+    guard = 0
+    while k < len(out):
+        t = out[k]
+        guard += 1
+        if guard > 100000:
+            break
+        if t.kind == "ident" and t.text in methods:
+            p = _prev_code(out, k - 1)
+            j = _next_code(out, k + 1)
+            if p >= 0 and out[p].text == "." and j < len(out) and out[j].text == "(":
+                cl = match_close(out, j)
+                args = split_args(out[j + 1:cl])
+                clo = [x for x in args[-1] if _is_code(x)] if args else []
+                if clo and clo[0].text in ("|", "||"):
+                    try:
+                        rs = chain_start(out, p)
+                    except Unsupported:
+                        k += 1
+                        continue
+                    recv = untok([x for x in out[rs:p]]).strip()
+                    if clo[0].text == "||":
+                        pat, body = "", clo[1:]
+                    else:
+                        e = next(q for q in range(1, len(clo)) if clo[q].text == "|")
+                        pat, body = untok(clo[1:e]).strip(), clo[e + 1:]
+                    body_txt = untok(body).strip()
+                    m = t.text
+                    if m == "map_or":
+                        d = untok(args[0]).strip()
+                        if not re.match(r"^[\w:.!\-]+$", d):
+                            raise Unsupported("%s: map_or with a non-trivial default `%s`" % (where, d[:40]))
+                        rep = "(match %s { Some(%s) => { %s }, None => %s })" % (recv, pat, body_txt, d)
+                    elif m == "filter":
+                        rep = "(match %s { Some(vx_o) => { let vx_keep = { let %s = &vx_o; %s }; if vx_keep { Some(vx_o) } else { None } }, None => None })" % (recv, pat, body_txt)
+                    elif m == "map":
+                        rep = "(match %s { Some(%s) => Some({ %s }), None => None })" % (recv, pat, body_txt)
+                    elif m == "and_then":
+                        rep = "(match %s { Some(%s) => { %s }, None => None })" % (recv, pat, body_txt)
+                    elif m == "is_some_and":
+                        rep = "(match %s { Some(%s) => { %s }, None => false })" % (recv, pat, body_txt)
+                    else:
+                        k += 1
+                        continue
+                    new = syn(rep)
+                    if new:
+                        new[0].start = out[rs].start
+                    out[rs:cl + 1] = new
+                    changed.append(m)
+                    k = rs + len(new)
+                    continue
+        k += 1
+    if changed:
+        log.append(("R21", where, "Option combinators with closures: " + ", ".join(changed), "the `match` each combinator is defined as"))
+    return out
+
+
 def make_helper(item, origin):
     """build the helper description from an extracted fn Item (tokens incl. signature)"""
     toks = item.toks
